@@ -1363,6 +1363,21 @@ def r_step(P, L, s, d):
         small = re.fullmatch(r"\d+", d["b"]) and int(d["b"]) <= 255 or re.fullmatch(r"\(\(.* as u8\) as usize\)", d["b"])
         if lty == "usize" and small and s.body.name in ("parser::HeaderParser::parse", "parser::Parser::get", "parser::stmt::<impl parser::Parser>::parse_data_row"):
             return (True, "step rule: usize counter += (constant or u8) once per consumed token; cannot wrap below 2^56 tokens (assumption)")
+        if lty == "usize" and small and s.body.name.startswith("parser::"):
+            # the same argument for a counter kept elsewhere in the parser: a call that consumes one token dominates the
+            # increment, and every cycle through the increment passes through that call again (one step per consumed token)
+            cfg = P.cfg(s.body)
+            CONSUME = ("parser::Parser::get", "parser::Parser::skip", "parser::Parser::expect")
+            doms = []
+            for bb, t in s.body.calls():
+                nm = callee_name(t)[0]
+                if nm in CONSUME or (nm.endswith("Iterator::next") and "self.iter" in canon(P.call_arg_terms(s.body, bb)[0])):
+                    if bb != s.bb and cfg.dominates(bb, s.bb):
+                        doms.append(bb)
+            for dbb in doms:
+                again = any(cfg.can_reach(x, {s.bb}, avoid=frozenset({dbb})) for x in s.body.succ(s.bb))
+                if not again:
+                    return (True, "step rule: usize counter += small constant, dominated by a token-consuming call (%s) that every further pass repeats: at most one step per consumed token; cannot wrap below 2^56 tokens (assumption)" % callee_name(s.body.term(dbb))[0].split("::")[-1])
         if lty == "usize" and s.body.name == "parser::Parser::get" and re.fullmatch(r"ExactSizeIterator::len\(some!\(Iterator::next\(self\.iter\)\)\.span\)", d["b"]):
             return (True, "step rule: usize counter += byte length of the token just consumed; token spans are disjoint sub-ranges of the input, so the sum is <= input length <= isize::MAX")
     return None
